@@ -38,6 +38,8 @@ func mkHeader(n int, kind string, pv uint64) *vh.Item {
 		major = vh.U(pv)
 	case "uint-wide":
 		major = &vh.Item{K: vh.KUInt, F: vh.F8, N: pv}
+	case "uint-f2":
+		major = &vh.Item{K: vh.KUInt, F: vh.F2, N: pv}
 	case "negative":
 		major = vh.NI(pv)
 	case "text":
@@ -142,6 +144,46 @@ func fixtureMonitor(c *vh.Ctx) error {
 		return err
 	}
 	decls := eraDecls()
+	// the third clause, directly: decoding ANY fixture as type T either fails or
+	// yields a block/header/transaction that reports T and the era owning T
+	ownerOf := func(t uint64) *eraDecl {
+		for i := range decls {
+			for _, bt := range decls[i].BlockTypes {
+				if bt == t {
+					return &decls[i]
+				}
+			}
+		}
+		return nil
+	}
+	for _, t := range probeIds() {
+		for _, f := range fx {
+			rp := map[string]any{"entry_point": "NewBlockFromCbor", "type_id": t, "fixture": f.Name}
+			c.Res.Count(fmt.Sprintf("matrix/%d/%s", t, f.Name), false, "matrix")
+			if o := obsBlock(uint(t), f.Block); o != nil {
+				ow := ownerOf(t)
+				if o.Type != t || ow == nil || o.Era != ow.Id || o.HdrEra != ow.Id {
+					c.Res.Violate("monitor", fmt.Sprintf("decode-as-%d-of-%s-block-reports-type-%d-era-%d", t, f.Name, o.Type, o.Era),
+						fmt.Sprintf("NewBlockFromCbor(%d, %s block) succeeds and reports Type()=%d Era().Id=%d header era %d", t, f.Name, o.Type, o.Era, o.HdrEra), rp)
+				}
+			}
+			if e, ok := obsHeader(uint(t), f.Header); ok {
+				ow := ownerOf(t)
+				if ow == nil || e != ow.Id {
+					rp["entry_point"] = "NewBlockHeaderFromCbor"
+					c.Res.Violate("monitor", fmt.Sprintf("header-as-%d-of-%s-reports-era-%d", t, f.Name, e),
+						fmt.Sprintf("NewBlockHeaderFromCbor(%d, %s header) succeeds and reports Era().Id=%d", t, f.Name, e), rp)
+				}
+			}
+			if f.Tx != nil {
+				if ty, ok := obsTx(uint(t), f.Tx); ok && ty != t {
+					rp["entry_point"] = "NewTransactionFromCbor"
+					c.Res.Violate("monitor", fmt.Sprintf("tx-as-%d-of-%s-reports-type-%d", t, f.Name, ty),
+						fmt.Sprintf("NewTransactionFromCbor(%d, first %s transaction) succeeds and reports Type()=%d", t, f.Name, ty), rp)
+				}
+			}
+		}
+	}
 	for _, f := range fx {
 		d := decls[f.EraId] // eraDecls is ordered by era id 0..7
 		key := func(s string) string { return s + "-" + f.Name }
@@ -232,6 +274,13 @@ func run(c *vh.Ctx) error {
 	c.Res.Modelled = []string{
 		"Block.Type()/Era() being constants of the Go type chosen by the switch is observed on fixtures (Gen.block_dispatch), not derived from the source",
 		"CBOR decoding of the header into `any` is not modelled: the model receives the number of body fields and the version field's value",
+	}
+	_, src, why := armsAndSource()
+	if src == "probe" {
+		c.Res.Notes = append(c.Res.Notes, fmt.Sprintf("arms_source = probe: no syntactic form of DetermineBlockType was recognised (%s); Gen.layouts is the OBSERVED step function (real function swept over versions 0..%d, header body lengths 0..%d). C36_unique / C36_total_on_known are then statements about that observed function; for the implementation they hold for versions <= %d, and for larger versions only under the explicit premise of C36_unique_probe (no answer above the probed range / for longer bodies).", why, probeLimit, probeMaxLen, probeLimit))
+		c.Res.Modelled = append(c.Res.Modelled, "arms_source = probe: DetermineBlockType is represented by its observed step function on versions 0..65535 x lengths 0..32, not by a reading of its source")
+	} else {
+		c.Res.Notes = append(c.Res.Notes, "arms_source = syntax: Gen.layouts was read off the source of DetermineBlockType and agrees with the real function on every probed header (lengths 0..32 x versions 0..1023, arms' lengths x versions 0..65535)")
 	}
 	cf := c.NewCaseFile("c36", header)
 	cf.SetShardSize(400)
